@@ -76,12 +76,19 @@ pub fn read_graphml_string(string: &str, specs: GraphSpecs) -> Result<Graph<Stri
                     }
                 }
                 b"key" => {
-                    let attrs = get_attributes_as_hashmap(e);
+                    let attrs = get_attributes_as_hashmap(e)?;
                     if attrs.contains_key("attr.name")
                         && attrs.get("attr.name").unwrap() == "weight"
-                        && attrs.get("for").unwrap() == "edge"
+                        && attrs.get("for").map_or(false, |f| f == "edge")
                     {
-                        edge_weight_attr_name = attrs.get("id").unwrap().to_string();
+                        match attrs.get("id") {
+                            None => {
+                                return Err(get_read_error(
+                                    "a <key> element does not have an \"id\" attribute",
+                                ));
+                            }
+                            Some(id) => edge_weight_attr_name = id.to_string(),
+                        }
                     }
                 }
                 _ => (),
@@ -89,7 +96,7 @@ pub fn read_graphml_string(string: &str, specs: GraphSpecs) -> Result<Graph<Stri
             Ok(Event::Start(ref e)) => {
                 match e.name().as_ref() {
                     b"graph" => {
-                        let attrs = get_attributes_as_hashmap(e);
+                        let attrs = get_attributes_as_hashmap(e)?;
                         match attrs.get("edgedefault") {
                             None => {
                                 return Err(get_read_error("the <graph> element does not have an \"edgedefault\" attribute"));
@@ -122,16 +129,23 @@ pub fn read_graphml_string(string: &str, specs: GraphSpecs) -> Result<Graph<Stri
                         }
                     }
                     b"key" => {
-                        let attrs = get_attributes_as_hashmap(e);
+                        let attrs = get_attributes_as_hashmap(e)?;
                         if attrs.contains_key("attr.name")
                             && attrs.get("attr.name").unwrap() == "weight"
-                            && attrs.get("for").unwrap() == "edge"
+                            && attrs.get("for").map_or(false, |f| f == "edge")
                         {
-                            edge_weight_attr_name = attrs.get("id").unwrap().to_string();
+                            match attrs.get("id") {
+                                None => {
+                                    return Err(get_read_error(
+                                        "a <key> element does not have an \"id\" attribute",
+                                    ));
+                                }
+                                Some(id) => edge_weight_attr_name = id.to_string(),
+                            }
                         }
                     }
                     b"data" => {
-                        let attrs = get_attributes_as_hashmap(e);
+                        let attrs = get_attributes_as_hashmap(e)?;
                         if attrs.contains_key("key") {
                             let key = attrs.get("key").unwrap();
                             if key == &edge_weight_attr_name {
@@ -142,7 +156,14 @@ pub fn read_graphml_string(string: &str, specs: GraphSpecs) -> Result<Graph<Stri
                                         match last_element_name.as_str() {
                                             "edge" => {
                                                 let edge = Arc::make_mut(edges.last_mut().unwrap());
-                                                edge.weight = weight.parse::<f64>().unwrap();
+                                                edge.weight = match weight.parse::<f64>() {
+                                                    Ok(w) => w,
+                                                    Err(_) => {
+                                                        return Err(get_read_error(
+                                                            "an edge weight is not a valid number",
+                                                        ));
+                                                    }
+                                                };
                                             }
                                             _ => (),
                                         }
@@ -270,7 +291,7 @@ where
 }
 
 fn add_edge(edges: &mut Vec<Arc<Edge<String, ()>>>, e: &BytesStart) -> Result<(), Error> {
-    let attrs = get_attributes_as_hashmap(e);
+    let attrs = get_attributes_as_hashmap(e)?;
     if !attrs.contains_key("source") {
         return Err(get_read_error(
             "an <edge> element does not have a \"source\" attribute",
@@ -289,7 +310,7 @@ fn add_edge(edges: &mut Vec<Arc<Edge<String, ()>>>, e: &BytesStart) -> Result<()
 }
 
 fn add_node(nodes: &mut Vec<Arc<Node<String, ()>>>, e: &BytesStart) -> Result<(), Error> {
-    let attrs = get_attributes_as_hashmap(e);
+    let attrs = get_attributes_as_hashmap(e)?;
     match attrs.get("id") {
         None => Err(get_read_error(
             "a <node> element does not have an \"id\" attribute",
@@ -301,15 +322,21 @@ fn add_node(nodes: &mut Vec<Arc<Node<String, ()>>>, e: &BytesStart) -> Result<()
     }
 }
 
-fn get_attributes_as_hashmap(event: &BytesStart) -> HashMap<String, String> {
+fn get_attributes_as_hashmap(event: &BytesStart) -> Result<HashMap<String, String>, Error> {
     event
         .attributes()
         .map(|a| {
-            let attr = a.unwrap();
+            let attr = match a {
+                Ok(attr) => attr,
+                Err(e) => return Err(get_read_error(format!("{}", e).as_str())),
+            };
             let key_vec = attr.key.local_name().as_ref().to_vec();
             let key = String::from_utf8(key_vec).unwrap();
-            let value = attr.unescape_value().unwrap().into_owned();
-            (key, value)
+            let value = match attr.unescape_value() {
+                Ok(value) => value.into_owned(),
+                Err(e) => return Err(get_read_error(format!("{}", e).as_str())),
+            };
+            Ok((key, value))
         })
         .collect()
 }
